@@ -2531,6 +2531,8 @@ def m_iter(ctx, o):
         return ListIter(o)
     if isinstance(o, (SetIter, ListIter)):
         return o
+    if isinstance(o, GSeq):
+        return o                     # a sequence of guarded entries is iterated as it is (for-loops and the harnesses read .entries)
     if o is None:
         return SetIter({}, [])
     return iter(o)
